@@ -36,6 +36,12 @@ func init() {
 	add("C10",
 		Mutant{Name: "cancel-deadline-from-read-timeout", File: "query.go", Old: "\tconst cancelDeadline = time.Second * 1\n", New: "\tcancelDeadline := time.Second * 1\n\tif c.readTimeout < cancelDeadline {\n\t\tcancelDeadline = c.readTimeout\n\t}\n", Rule: "C10.sentinel", Construct: "cancelQuery"},
 	)
+	add("C10",
+		Mutant{Name: "cancel-write-bounded-by-deadline-only", File: "query.go", Old: "\ttimer := time.AfterFunc(cancelDeadline, func() { _ = c.conn.Close() })\n\tdefer timer.Stop()\n", New: "", Rule: "C10.cancel-bound", Construct: "cancelQuery"},
+	)
+	add("C04",
+		Mutant{Name: "cancel-packet-written-without-deadline", File: "query.go", Old: "\tif err := c.flushBuf(ctx, &b); err != nil {\n\t\tretErr = errors.Join(retErr, errors.Wrap(err, \"flush\"))", New: "\t_ = ctx\n\tif err := c.flushBuf(context.Background(), &b); err != nil {\n\t\tretErr = errors.Join(retErr, errors.Wrap(err, \"flush\"))", Rule: "C04.cancel-closes", Construct: "bounded"},
+	)
 	add("C11",
 		Mutant{Name: "health-check-not-started-for-new", File: "chpool/pool.go", Old: "\tif dial {\n\t\tres, err := p.pool.Acquire(ctx)\n\t\tif err != nil {\n\t\t\tp.Close()\n\t\t\treturn nil, err\n\t\t}\n\t\tres.Release()\n\t}\n", New: "\tif !dial {\n\t\treturn p, nil\n\t}\n\tres, err := p.pool.Acquire(ctx)\n\tif err != nil {\n\t\tp.Close()\n\t\treturn nil, err\n\t}\n\tres.Release()\n", Rule: "C11.periodic", Construct: "started"},
 	)
@@ -50,6 +56,9 @@ func init() {
 	)
 	add("C18",
 		Mutant{Name: "auto-results-decoded-at-library-revision", File: "proto/results.go", Old: "\t\treturn s.DecodeResult(r, version, b)", New: "\t\treturn s.DecodeResult(r, Version, b)", Rule: "C18.version-through", Construct: "decodeAuto"},
+	)
+	add("C18",
+		Mutant{Name: "map-parameters-cut-at-first-comma", File: "proto/col_map.go", Old: "\tkeytype, valtype, ok := cutMapTypes(string(t.Elem()))\n\tif !ok {", New: "\tkeytype, valtype, ok := strings.Cut(string(t.Elem()), \",\")\n\tif !ok || strings.ContainsRune(valtype, ',') {", Rule: "C18.mapinfer", Construct: "split"},
 	)
 	add("C19",
 		Mutant{Name: "enum-offers-nullable", File: "proto/col_enum.go", Old: "func (e *ColEnum) Rows() int {", New: "func (e *ColEnum) Nullable() *ColNullable[string] {\n\treturn &ColNullable[string]{Values: e}\n}\n\nfunc (e *ColEnum) Rows() int {", Rule: "C19.nullable-total", Construct: "ColEnum"},
